@@ -75,11 +75,54 @@ def _r13c(chk, repo, af) -> None:
     if not rec:
         raise AnalysisError("R13c: apply_fixes no longer calls itself for child segments; re-confirm the anchor by hand")
     pos = params.index("max_parse_nodes")
+    from ..flowutil import sole_expr_origin
+
+    def _from_dict(c):
+        """(value, statement) of the ``max_parse_nodes`` entry of a keyword dict splatted into the call:
+        ``limits = {"max_parse_nodes": v, ...}`` / ``dict(max_parse_nodes=v, ...)`` ... ``f(..., **limits)``,
+        when that local is only ever read as a ``**`` argument (so no entry is changed or dropped)."""
+        for k in c.keywords:
+            if k.arg is not None or not isinstance(k.value, ast.Name):
+                continue
+            nm = k.value.id
+            reads = [x for x in ast.walk(af) if isinstance(x, ast.Name) and x.id == nm and isinstance(x.ctx, ast.Load)]
+            if not all(isinstance(getattr(x, "_parent", None), ast.keyword) and x._parent.arg is None for x in reads):
+                continue
+            d = sole_expr_origin(cfg, k.value, cfg.stmt_of(c))
+            if isinstance(d, ast.Dict):
+                for kk, vv in zip(d.keys, d.values):
+                    if isinstance(kk, ast.Constant) and kk.value == "max_parse_nodes":
+                        return vv, cfg.stmt_of(d)
+            elif isinstance(d, ast.Call) and call_name(d) == "dict" and not d.args:
+                for kk in d.keywords:
+                    if kk.arg == "max_parse_nodes":
+                        return kk.value, cfg.stmt_of(d)
+        return None, None
+
+    def _closure_read(c, a) -> bool:
+        """``a`` is the enclosing apply_fixes' own parameter read from a nested function: no function
+        between the call and apply_fixes binds the name, and apply_fixes never re-binds it."""
+        if not (isinstance(a, ast.Name) and a.id == "max_parse_nodes"):
+            return False
+        if any(isinstance(x, ast.Name) and x.id == a.id and not isinstance(x.ctx, ast.Load) for x in ast.walk(af)):
+            return False
+        nested = [x for x in ast.walk(af) if x is not af and isinstance(x, FuncNode + (ast.Lambda,))]
+        return not any(a.id in {y.arg for y in ast.walk(x.args) if isinstance(y, ast.arg)} for x in nested)
+
     for c in rec:
+        at = cfg.stmt_of(c)
         a = next((k.value for k in c.keywords if k.arg == "max_parse_nodes"), None)
         if a is None and len(c.args) > pos and not any(isinstance(x, ast.Starred) for x in c.args[: pos + 1]):
             a = c.args[pos]
-        ok = a is not None and isinstance(a, ast.Name) and param_origin(cfg, a, cfg.stmt_of(c)) == "max_parse_nodes"
+        if a is None and at is not None:
+            a, at = _from_dict(c)
+        fn = c
+        while fn is not None and not isinstance(fn, FuncNode + (ast.Lambda,)):
+            fn = getattr(fn, "_parent", None)
+        if fn is not af:
+            ok = a is not None and _closure_read(c, a)
+        else:
+            ok = a is not None and isinstance(a, ast.Name) and param_origin(cfg, a, at) == "max_parse_nodes"
         chk.require(
             ok, "R13c", c,
             "the recursive apply_fixes call does not pass max_parse_nodes on (the default 0 means unlimited): nested segments -- where nearly every fix is applied and validated -- are "
@@ -134,7 +177,7 @@ def _r13a(chk, repo, af) -> None:
                 r = callee(repo, c)
                 if r is not None and r[1] is af:
                     fn = _fn_of(c)
-                    if fn is not af:
+                    if fn is not af and not _inside(fn, af):  # calls nested inside apply_fixes are its recursion (R13b)
                         sites.append((c, fn))
     chk.count("R13a.apply_fixes_callers", len(sites))
     chk.floor("R13a.apply_fixes_callers", 1)
@@ -374,8 +417,24 @@ def _inside(node, anc) -> bool:
 
 
 def _recursion(chk, repo, cfg, af, req, sets, mono=()) -> None:
-    rec = [c for c in walk_local(af) if isinstance(c, ast.Call) and last_attr(c) == af.name and (callee(repo, c) or (None, None))[1] is af]
-    chk.count("R13b.recursive_calls", len(rec))
+    def _is_rec(c) -> bool:
+        return isinstance(c, ast.Call) and last_attr(c) == af.name and (callee(repo, c) or (None, None))[1] is af
+
+    # a nested ``def helper(child): return apply_fixes(child, ...)`` (bound once, never re-bound): calling it is the recursive call
+    fwd = set()
+    for d in walk_local(af):
+        if isinstance(d, FuncNode):
+            body = [x for x in d.body if not (isinstance(x, ast.Expr) and isinstance(x.value, ast.Constant))]
+            binds = [x for x in ast.walk(af) if (isinstance(x, FuncNode) and x is not d and x.name == d.name) or (isinstance(x, ast.Name) and x.id == d.name and not isinstance(x.ctx, ast.Load))]
+            if len(body) == 1 and isinstance(body[0], ast.Return) and _is_rec(body[0].value) and not binds:
+                fwd.add(d.name)
+    rec = [c for c in walk_local(af) if _is_rec(c) or (isinstance(c, ast.Call) and isinstance(c.func, ast.Name) and c.func.id in fwd)]
+    n_opaque = 0
+    for c in ast.walk(af):
+        if _is_rec(c) and _fn_of(c) is not af and getattr(_fn_of(c), "name", None) not in fwd:
+            n_opaque += 1
+            chk.fail("R13b", c, "a recursive apply_fixes call sits in a nested function that does more than hand the result back: its validity cannot be followed to the parent's validation request", detail="(ii) child validity bound")
+    chk.count("R13b.recursive_calls", len(rec) + n_opaque)
     chk.floor("R13b.recursive_calls", 1)
     for call in rec:
         st = cfg.stmt_of(call)
@@ -760,5 +819,73 @@ VARIANTS = [
         "                # original segment.\n                return segment, [], [], True\n",
         "                # original segment.\n                return new_seg, [], [], True\n",
         "R13b", "(iii) returned validity <- True", "the edits inside an unparsable region are kept and declared valid",
+    ),
+    # R13c re-spellings of the recursive call
+    Variant(
+        "quiet-r13c-recursion-all-positional", FIX,
+        '        s, pre, post, validated = apply_fixes(\n            seg,\n            dialect,\n            rule_code,\n            fixes,\n            max_parse_depth=max_parse_depth,\n            max_parse_nodes=max_parse_nodes,\n        )\n',
+        "        s, pre, post, validated = apply_fixes(\n            seg, dialect, rule_code, fixes, max_parse_depth, max_parse_nodes\n        )\n",
+        "QUIET", None, "R13c: both limits passed by position",
+    ),
+    Variant(
+        "quiet-r13c-budget-through-local-all-keywords", FIX,
+        '    for seg in seg_queue:\n        s, pre, post, validated = apply_fixes(\n            seg,\n            dialect,\n            rule_code,\n            fixes,\n            max_parse_depth=max_parse_depth,\n            max_parse_nodes=max_parse_nodes,\n        )\n',
+        "    node_budget = max_parse_nodes\n    for seg in seg_queue:\n        s, pre, post, validated = apply_fixes(\n            segment=seg,\n            dialect=dialect,\n            rule_code=rule_code,\n            fixes=fixes,\n            max_parse_nodes=node_budget,\n            max_parse_depth=max_parse_depth,\n        )\n",
+        "QUIET", None, "R13c: the budget through one more local, every argument by keyword, keywords reordered",
+    ),
+    Variant(
+        "quiet-r13c-limits-in-a-keyword-dict", FIX,
+        '    for seg in seg_queue:\n        s, pre, post, validated = apply_fixes(\n            seg,\n            dialect,\n            rule_code,\n            fixes,\n            max_parse_depth=max_parse_depth,\n            max_parse_nodes=max_parse_nodes,\n        )\n',
+        "    limits = {\"max_parse_depth\": max_parse_depth, \"max_parse_nodes\": max_parse_nodes}\n    for seg in seg_queue:\n        s, pre, post, validated = apply_fixes(seg, dialect, rule_code, fixes, **limits)\n",
+        "QUIET", None, "R13c: the two limits collected in a dict and splatted into the call",
+    ),
+    Variant(
+        "quiet-r13c-recursion-in-a-nested-helper", FIX,
+        '    for seg in seg_queue:\n        s, pre, post, validated = apply_fixes(\n            seg,\n            dialect,\n            rule_code,\n            fixes,\n            max_parse_depth=max_parse_depth,\n            max_parse_nodes=max_parse_nodes,\n        )\n',
+        "    def _fix_child(child: BaseSegment):\n        return apply_fixes(\n            child,\n            dialect,\n            rule_code,\n            fixes,\n            max_parse_depth=max_parse_depth,\n            max_parse_nodes=max_parse_nodes,\n        )\n\n    for seg in seg_queue:\n        s, pre, post, validated = _fix_child(seg)\n",
+        "QUIET", None, "R13c: the recursive call extracted into a nested function reading the enclosing parameters",
+    ),
+    Variant(
+        "quiet-r13c-result-kept-whole-and-unpacked", FIX,
+        '        s, pre, post, validated = apply_fixes(\n            seg,\n            dialect,\n            rule_code,\n            fixes,\n            max_parse_depth=max_parse_depth,\n            max_parse_nodes=max_parse_nodes,\n        )\n',
+        "        child_result = apply_fixes(\n            seg,\n            dialect,\n            rule_code,\n            fixes,\n            max_parse_depth=max_parse_depth,\n            max_parse_nodes=max_parse_nodes,\n        )\n        s, pre, post, validated = child_result\n",
+        "QUIET", None, "R13c: the result tuple kept whole, then unpacked",
+    ),
+    # breaking twins of the R13c re-spellings
+    Variant(
+        "r13c-twin-keyword-dict-without-the-budget", FIX,
+        '    for seg in seg_queue:\n        s, pre, post, validated = apply_fixes(\n            seg,\n            dialect,\n            rule_code,\n            fixes,\n            max_parse_depth=max_parse_depth,\n            max_parse_nodes=max_parse_nodes,\n        )\n',
+        "    limits = {\"max_parse_depth\": max_parse_depth}\n    for seg in seg_queue:\n        s, pre, post, validated = apply_fixes(seg, dialect, rule_code, fixes, **limits)\n",
+        "R13c", "apply_fixes", "dict spelling, budget entry missing",
+    ),
+    Variant(
+        "r13c-twin-keyword-dict-entry-overwritten", FIX,
+        '    for seg in seg_queue:\n        s, pre, post, validated = apply_fixes(\n            seg,\n            dialect,\n            rule_code,\n            fixes,\n            max_parse_depth=max_parse_depth,\n            max_parse_nodes=max_parse_nodes,\n        )\n',
+        "    limits = {\"max_parse_depth\": max_parse_depth, \"max_parse_nodes\": max_parse_nodes}\n    limits[\"max_parse_nodes\"] = 0\n    for seg in seg_queue:\n        s, pre, post, validated = apply_fixes(seg, dialect, rule_code, fixes, **limits)\n",
+        "R13c", "apply_fixes", "dict spelling, budget entry reset before the call",
+    ),
+    Variant(
+        "r13c-twin-nested-helper-without-the-budget", FIX,
+        '    for seg in seg_queue:\n        s, pre, post, validated = apply_fixes(\n            seg,\n            dialect,\n            rule_code,\n            fixes,\n            max_parse_depth=max_parse_depth,\n            max_parse_nodes=max_parse_nodes,\n        )\n',
+        "    def _fix_child(child: BaseSegment):\n        return apply_fixes(\n            child,\n            dialect,\n            rule_code,\n            fixes,\n            max_parse_depth=max_parse_depth,\n        )\n\n    for seg in seg_queue:\n        s, pre, post, validated = _fix_child(seg)\n",
+        "R13c", "apply_fixes", "nested-helper spelling, budget not forwarded",
+    ),
+    Variant(
+        "r13c-twin-nested-helper-reads-a-rebound-budget", FIX,
+        '    for seg in seg_queue:\n        s, pre, post, validated = apply_fixes(\n            seg,\n            dialect,\n            rule_code,\n            fixes,\n            max_parse_depth=max_parse_depth,\n            max_parse_nodes=max_parse_nodes,\n        )\n',
+        "    max_parse_nodes = 0\n\n    def _fix_child(child: BaseSegment):\n        return apply_fixes(\n            child,\n            dialect,\n            rule_code,\n            fixes,\n            max_parse_depth=max_parse_depth,\n            max_parse_nodes=max_parse_nodes,\n        )\n\n    for seg in seg_queue:\n        s, pre, post, validated = _fix_child(seg)\n",
+        "R13c", "apply_fixes", "nested-helper spelling, the closure variable is re-bound to 'unlimited'",
+    ),
+    Variant(
+        "r13c-twin-budget-local-rebound", FIX,
+        '    for seg in seg_queue:\n        s, pre, post, validated = apply_fixes(\n            seg,\n            dialect,\n            rule_code,\n            fixes,\n            max_parse_depth=max_parse_depth,\n            max_parse_nodes=max_parse_nodes,\n        )\n',
+        "    node_budget = max_parse_nodes\n    node_budget = 0\n    for seg in seg_queue:\n        s, pre, post, validated = apply_fixes(\n            segment=seg,\n            dialect=dialect,\n            rule_code=rule_code,\n            fixes=fixes,\n            max_parse_nodes=node_budget,\n            max_parse_depth=max_parse_depth,\n        )\n",
+        "R13c", "apply_fixes", "local spelling, the local no longer holds the parameter",
+    ),
+    Variant(
+        "r13b-twin-nested-helper-drops-child-validity", FIX,
+        '    for seg in seg_queue:\n        s, pre, post, validated = apply_fixes(\n            seg,\n            dialect,\n            rule_code,\n            fixes,\n            max_parse_depth=max_parse_depth,\n            max_parse_nodes=max_parse_nodes,\n        )\n',
+        "    def _fix_child(child: BaseSegment):\n        res = apply_fixes(\n            child,\n            dialect,\n            rule_code,\n            fixes,\n            max_parse_depth=max_parse_depth,\n            max_parse_nodes=max_parse_nodes,\n        )\n        return res[0], res[1], res[2], True\n\n    for seg in seg_queue:\n        s, pre, post, validated = _fix_child(seg)\n",
+        "R13b", "apply_fixes", "nested-helper spelling, but the helper replaces the child's validity by True",
     ),
 ]
